@@ -10,7 +10,9 @@ corresponding theorem. Generated protobuf decoders, crypto primitives, snappy, S
 runtime are outside the model; they are exercised by the harness only.
 -/
 import AnySyncModel.Bytes.Lemmas
+import AnySyncModel.Bytes.KeyProtoLemmas
 import AnySyncModel.Handshake.Lemmas
+import AnySyncModel.Ldiff.Shape
 
 namespace AnySync.Props.C11
 open AnySync.Bytes AnySync.Generated.Bytes
@@ -84,6 +86,35 @@ theorem unmarshalEd25519_total (data : Bytes) :
       split at h
       · rename_i h64; simp at h; subst h; exact h64
       · cases h
+
+/-! ### a generated protobuf decoder, byte level: `cryptoproto.Key.UnmarshalVT` + `protohelpers.Skip` -/
+
+/-- `Key.UnmarshalVT` on any bytes: no index / slice panic, and the loop budgets of the model are
+never exhausted (every iteration of every loop consumes input) -/
+theorem keyProto_unmarshal_total (d : Bytes) :
+    KeyProto.unmarshalKey d ≠ .panic ∧ KeyProto.unmarshalKey d ≠ .fuel :=
+  KeyProto.fieldsLoop_ok d (d.length + 1) ⟨0, []⟩ 0 (by omega)
+
+/-- `crypto.UnmarshalEd25519PublicKeyProto` (decode, key-type switch, length check) is total; what
+reaches the point decoder is exactly 32 bytes of a message whose type is Ed25519Public -/
+theorem unmarshalEd25519PublicKeyProto_total (d : Bytes) :
+    KeyProto.unmarshalEd25519PublicKeyProto d ≠ .panic ∧ KeyProto.unmarshalEd25519PublicKeyProto d ≠ .fuel ∧
+    ∀ b, KeyProto.unmarshalEd25519PublicKeyProto d = .ok b → b.length = 32 := by
+  obtain ⟨hp, hf⟩ := keyProto_unmarshal_total d
+  unfold KeyProto.unmarshalEd25519PublicKeyProto
+  cases hk : KeyProto.unmarshalKey d with
+  | err => exact ⟨by simp, by simp, by intro b h; cases h⟩
+  | panic => exact absurd hk hp
+  | fuel => exact absurd hk hf
+  | ok k =>
+    simp only
+    split
+    · exact ⟨by simp, by simp, by intro b h; cases h⟩
+    · have he := unmarshalEd25519_total k.data
+      cases hpb : edPub k.data with
+      | ok b => simp only; exact ⟨by simp, by simp, by intro b' h; injection h with h; subst h; exact he.2.1 b hpb⟩
+      | err => exact ⟨by simp, by simp, by intro b h; cases h⟩
+      | panic => exact absurd hpb he.1
 
 /-! ### pub/sub topics and patterns -/
 
@@ -174,39 +205,72 @@ theorem genTupleRanges_total (lo hi df : Nat) (hdf : 1 ≤ df) :
   simp only [this, if_false]
   exact ⟨_, rfl, genLoop_length _ _ _ _ _ _⟩
 
-/-- full statement for `getBottomRange`: never divides by zero -/
-def C11_bottomBucket_full : Prop := ∀ lo hi df el, 1 ≤ df → bottomBucket lo hi df el ≠ .panic
+/-! `getBottomRange` — restated on the ldiff area's model (`Ldiff.bucketOf`, `Ldiff.childRange`,
+`Ldiff.genTupleRanges`; arithmetic regenerated into `Generated/LdiffShape.lean`) after the repair of
+F-ldiff-width: a range is divided only under the guard `canDivide(from, to, df)`. The lemmas of
+`Ldiff/Arith.lean` / `Ldiff/Shape.lean` (`split_facts`, `bucket_closed`, `shape_tuple`,
+`genTupleRanges_eq`, `canDivide_iff`) are reused, not re-proved. -/
 
-/-- … which is false: a divided range narrower than the divide factor (needs more than
-`compareThreshold` ids whose xxhash64 fall into it, F-ldiff-width) divides by `perRange = 0` -/
-theorem bottomBucket_full_refuted : ¬ C11_bottomBucket_full := by
-  intro h; exact h 5 5 2 5 (by omega) (by decide)
+/-- **full (guarded) statement**: for `lo ≤ hi < 2^64`, `df ≥ 2` and `canDivide lo hi df`, on every
+hash of the range: `perRange ≥ 1` (no division by zero), the clamped bucket is `< df`, the tuple
+`getBottomRange` looks up is that bucket's tuple of `genTupleRanges` -/
+theorem bottomBucket_guarded (lo hi df h : Nat) (h1 : lo ≤ hi) (h2 : hi < Ldiff.M) (hdf : 2 ≤ df) (hM : df < Ldiff.M)
+    (hc : Ldiff.canDivide lo hi df = true) (hl : lo ≤ h) (hh : h ≤ hi) :
+    1 ≤ Ldiff.perRange lo hi df ∧
+    ∃ b, Ldiff.bucketOf lo hi df h = some b ∧ b < df ∧
+      (Generated.LdiffShape.gbFrom lo b (Ldiff.perRange lo hi df),
+        if b = df - 1 then Generated.LdiffShape.gbLastTo (Generated.LdiffShape.gbTo lo b (Ldiff.perRange lo hi df)) (Ldiff.align lo hi df)
+        else Generated.LdiffShape.gbTo lo b (Ldiff.perRange lo hi df)) = Ldiff.childRange lo hi df b ∧
+      (Ldiff.genTupleRanges lo hi df)[b]? = some (Ldiff.childRange lo hi df b) := by
+  have w : Ldiff.Wide lo hi df := ⟨h1, h2, hdf, (Ldiff.canDivide_iff lo hi df h1 h2 hdf (by omega)).1 hc⟩
+  obtain ⟨hP, _, _⟩ := Ldiff.split_facts lo hi df w
+  refine ⟨hP, ?_⟩
+  have hb := Ldiff.bucket_closed lo hi df h w hl hh
+  have hlt : (if (h - lo) / Ldiff.perRange lo hi df > df - 1 then df - 1 else (h - lo) / Ldiff.perRange lo hi df) < df := by
+    split <;> omega
+  refine ⟨_, hb, hlt, ?_, ?_⟩
+  · obtain ⟨e1, e2⟩ := Ldiff.shape_tuple lo hi df _ w hM hlt
+    exact Prod.ext e1 e2
+  · rw [Ldiff.genTupleRanges_eq lo hi df w]
+    simp [hlt]
 
-/-- what holds: for ranges at least as wide as the divide factor (every range `makeBottomRanges`
-creates from the full 64-bit space down to width ≥ df) and df ≥ 2 there is no division by zero -/
-theorem bottomBucket_partial (lo hi df el : Nat) (hdf : 2 ≤ df) (hw : df ≤ u64 (hi + 2 ^ 64 - lo)) :
-    bottomBucket lo hi df el ≠ .panic := by
-  unfold bottomBucket
-  have h0 : df ≠ 0 := by omega
-  simp only [h0, if_false]
-  have hlt : u64 (hi + 2 ^ 64 - lo) < 2 ^ 64 := by unfold u64; omega
-  have hq : 1 ≤ u64 (hi + 2 ^ 64 - lo) / df := (Nat.one_le_div_iff (by omega)).2 hw
-  have hq2 : u64 (hi + 2 ^ 64 - lo) / df < 2 ^ 63 := by
-    apply Nat.div_lt_of_lt_mul
-    have : 2 ^ 64 ≤ df * 2 ^ 63 := by
-      have : 2 * 2 ^ 63 ≤ df * 2 ^ 63 := Nat.mul_le_mul_right _ hdf
-      omega
-    omega
-  by_cases ha : (u64 (hi + 2 ^ 64 - lo) % df + 1) % df = 0
-  · simp only [ha, if_true]
-    have : u64 (u64 (hi + 2 ^ 64 - lo) / df + 1) = u64 (hi + 2 ^ 64 - lo) / df + 1 := by
-      unfold u64; exact Nat.mod_eq_of_lt (by unfold u64 at hq2; omega)
-    rw [this]
-    have hne : u64 (hi + 2 ^ 64 - lo) / df + 1 ≠ 0 := by omega
-    simp [hne]
-  · simp only [ha, if_false]
-    have hne : u64 (hi + 2 ^ 64 - lo) / df ≠ 0 := by omega
-    simp [hne]
+/-- `getBottomRange` is only reached on divided ranges, and a range is divided only if `canDivide`
+holds: `makeBottomRanges` (model `build`) … -/
+theorem divided_only_if_canDivide {D} (A : Ldiff.DigAlg D) (p : Ldiff.Params) (sl : List Ldiff.Elem) (fuel lo hi c : Nat)
+    (d : Option D) (kids : List (Ldiff.Tree D))
+    (h : Ldiff.build A Ldiff.goSplit p sl fuel lo hi = .div c d kids) :
+    Ldiff.canDivide lo hi p.df = true := by
+  cases fuel with
+  | zero =>
+    unfold Ldiff.build at h
+    split at h
+    · cases h
+    · simp [Ldiff.mkLeaf] at h
+  | succ n =>
+    unfold Ldiff.build at h
+    split at h
+    · rename_i hc; exact hc.2
+    · simp [Ldiff.mkLeaf] at h
+
+/-- … and `addElement` turning a leaf into a divided range (the extractor checks that the three
+guards `&& canDivide(…)` / `|| !canDivide(…)` are present in the source: `Ldiff.ldiffShape_ok`) -/
+theorem addElement_divides_only_if_canDivide {D} (A : Ldiff.DigAlg D) (p : Ldiff.Params) (sl : List Ldiff.Elem)
+    (h f cnt lo hi c : Nat) (d0 d : Option D) (kids : List (Ldiff.Tree D))
+    (hd : Ldiff.addEl A Ldiff.goSplit p sl h (f + 1) (.leaf cnt d0) lo hi = .div c d kids) :
+    Ldiff.canDivide lo hi p.df = true := by
+  unfold Ldiff.addEl at hd
+  simp only at hd
+  split at hd
+  · rename_i hc; exact hc.2
+  · simp [Ldiff.mkLeaf] at hd
+
+/-- why the guard is needed (the former refutation witness): on the range [5,5] with df = 2 the
+guard is false and the unguarded arithmetic divides by zero (`bucketOf = none` ⇔ Go panics) -/
+theorem bottomBucket_unguarded_divides_by_zero :
+    Ldiff.canDivide 5 5 2 = false ∧ Ldiff.bucketOf 5 5 2 5 = none := by
+  constructor
+  · unfold Ldiff.canDivide; decide
+  · decide
 
 /-! ### non-vacuity / witnesses -/
 
@@ -221,7 +285,10 @@ example : validatePattern [97, 47, 42, 47, 62] = .ok () ∧ validatePattern [97,
 /-- "ba.a1" -/
 example : spaceIdSplit [98, 97, 46, 97, 49] = .ok ([98, 97], [97, 49]) := by decide
 example : spaceIdSplit [98, 97] = .err := by decide
+/-- `08 00 12 02 aa bb`: Type = 0, Data = aa bb; trailing unknown group field; truncated length -/
+example : KeyProto.unmarshalKey [0x08, 0x00, 0x12, 0x02, 0xaa, 0xbb] = .ok ⟨0, [0xaa, 0xbb]⟩ := by decide
+example : KeyProto.unmarshalKey [0x08, 0x01, 0x1b, 0x08, 0x05, 0x1c] = .ok ⟨1, []⟩ := by decide
+example : KeyProto.unmarshalKey [0x12, 0x05, 0xaa] = .err := by decide
 example : genTupleRanges 0 99 4 = .ok [⟨0, 24⟩, ⟨25, 49⟩, ⟨50, 74⟩, ⟨75, 99⟩] := by decide
-example : bottomBucket 5 5 2 5 = .panic := by decide
 
 end AnySync.Props.C11
